@@ -252,7 +252,11 @@ class Gen:
         if r.random() < self.p_bad:
             return self.g_bad(world)
         k = r.choices(self.kinds, self.weights)[0]
-        return getattr(self, 'g_' + k)(world)
+        op = getattr(self, 'g_' + k)(world)
+        if self.oracle.prop == 'C13' and r.random() < 0.5:
+            # a format spec under which the twin results are compared as well
+            op['twin_spec'] = ops.compose_spec(self.spec(r.randint(0, 8)))
+        return op
 
     def g_new(self, world):
         r = self.rng
